@@ -248,7 +248,16 @@ def strat_linker():
 
 def strat_symbols():
     from hypothesis import strategies as st
-    return st.fixed_dictionaries({'prog': G.programs(max_statements=4, blocks=True, named_periods=True), 'tape': G.tapes(10)})
+    block = st.sampled_from([['block', 'pass'], ['block', 'x = 1'], ['block', 'last = self._Y[t]']])
+
+    def with_blocks(prog, extra, where):
+        out = list(prog)
+        for b, w in zip(extra, where):
+            out.insert(w % (len(out) + 1), b)
+        return out
+    progs = st.tuples(G.programs(max_statements=4, blocks=True, named_periods=True), st.lists(block, max_size=3),
+                      st.lists(st.integers(0, 5), min_size=3, max_size=3)).map(lambda x: with_blocks(*x))
+    return st.fixed_dictionaries({'prog': progs, 'tape': G.tapes(10)})
 
 
 def gen_symbols():
@@ -256,6 +265,8 @@ def gen_symbols():
         for prog in G.enumerate_programs(3):
             yield {'prog': prog}
         yield {'prog': [['block', 'pass']]}
+        yield {'prog': [['block', 'pass'], ['block', 'pass']]}
+        yield {'prog': [['block', 'x = 1'], ['assign', ['var', 'Y', 'v', None], ['var', 'X', 'v', -1]], ['block', 'x = 1'], ['block', 'x = 1']]}
         yield {'prog': [['block', 'x = 1'], ['assign', ['var', 'Y', 'v', None], ['call', 'max', [['var', 'X', 'v', -1], ['num', '0']]]]]}
         yield {'prog': [['assign', ['var', 'Y', 'v', None], ['if', ['var', 'X', 'v', None], ['var', 'Z', 'v', 1], ['num', '0']]]]}
     return gen
